@@ -13,7 +13,8 @@ def InsertTailPost (t : Tree) (key : Nat) (value : Int) (r : Option (Tree × TIt
   ∃ t' it', r = some (t', it') ∧ t'.Shape ∧
     t'.countRange 1 (t'.rs + 1) = t.countRange 1 (t.rs + 1) + 1 ∧
     t'.toList = SMap.set t.toList key value ∧ t'.UpClosed ∧
-    t'.cell it'.i = some (key, value) ∧ t'.size = t.size + 1 ∧ t'.rs = t.rs
+    t'.cell it'.i = some (key, value) ∧ t'.size = t.size + 1 ∧ t'.rs = t.rs ∧
+    1 ≤ it'.i ∧ it'.i ≤ t'.rs
 
 /-- non-leaf hint: the pair goes to the unused child on the side of the key -/
 theorem insertTail_nonleaf (t : Tree) (key : Nat) (value : Int) (i o : Nat)
@@ -50,7 +51,9 @@ theorem insertTail_nonleaf (t : Tree) (key : Nat) (value : Int) (i o : Nat)
         have := k6.unique hoc
         subst this
         rw [k8]; exact hu)
-    exact ⟨_, _, e, a1, a2, a3, a4, a5, rfl, rfl⟩
+    refine ⟨_, _, e, a1, a2, a3, a4, a5, rfl, rfl, ?_, ?_⟩
+    · show 1 ≤ i - o'; omega
+    · show i - o' ≤ t.rs; omega
   · simp only [hlt, if_false] at hchild
     have hgt : t.keyAt i < key := by omega
     have hchild' : t.isUnused (i + o') = true := by
@@ -74,7 +77,9 @@ theorem insertTail_nonleaf (t : Tree) (key : Nat) (value : Int) (i o : Nat)
         have := k7.unique hoc
         subst this
         rw [k9]; exact hu)
-    exact ⟨_, _, e, a1, a2, a3, a4, a5, rfl, rfl⟩
+    refine ⟨_, _, e, a1, a2, a3, a4, a5, rfl, rfl, ?_, ?_⟩
+    · show 1 ≤ i + o'; omega
+    · show i + o' ≤ t.rs; omega
 
 /-- leaf hint: `rebalance`, then the search restarts from the rebuilt subtree -/
 theorem insertTail_leaf (hr : RedistSpec) (hg : GoDownSpec) (t : Tree) (key : Nat) (value : Int)
@@ -113,7 +118,7 @@ theorem insertTail_leaf (hr : RedistSpec) (hg : GoDownSpec) (t : Tree) (key : Na
       · have := hcs p it'.i (key, value) kv' (by omega) h2 (by omega) p3 hkv'
         simp only at this; omega
       · omega
-  refine ⟨t3, it', e, r2, ?_, r6, r8, by rw [hip]; exact p3, r5, r3⟩
+  refine ⟨t3, it', e, r2, ?_, r6, r8, by rw [hip]; exact p3, r5, r3, by omega, by omega⟩
   rw [r9]
   show t.size + 1 = t.countRange 1 (t.rs + 1) + 1
   omega
